@@ -46,6 +46,22 @@ LastPair = _LP.create()                      # (item, is_last) pairs of render._
 SeqRow = SeqSort(Row)
 SeqLP = SeqSort(LastPair)
 SeqBool = SeqSort(BoolSort())
+J = DeclareSort("JDict")                     # dictionaries built by DictExporter (fresh objects; known through observers)
+JCLS = Function("JCLS", J, U)                # the dictcls it was made with
+JARG = Function("JARG", J, U)                # the argument handed to dictcls (the attriter result)
+JHASKIDS = Function("JHASKIDS", J, B)        # has a 'children' entry
+SeqJ = SeqSort(J)
+JKIDS = Function("JKIDS", J, SeqJ)           # its 'children' list
+NEWJ = Function("NEWJ", U, U, J)             # dictcls(arg) before any item assignment
+WITHKIDS = Function("WITHKIDS", J, SeqJ, J)  # d after d['children'] = kids
+_KV = Datatype("KV")
+_KV.declare("KV", ("key", Str), ("val", U))
+KV = _KV.create()
+SeqKV = SeqSort(KV)
+DKV = Function("DKV", R, SeqKV)              # node.__dict__.items()
+KVSU = Function("KVSU", SeqKV, U)            # a sequence of (key, value) pairs seen as an arbitrary iterable value
+AFn = DeclareSort("AFn")                     # attriter: iterable of pairs -> iterable of pairs
+appA = Function("appA", AFn, U, U)
 SeqFn = DeclareSort("SeqFn")                 # childiter: sequence of nodes -> sequence of nodes
 appSeq = Function("appSeq", SeqFn, SeqR, SeqR)
 JOINSEG = Function("JOINSEG", SeqBool, I, Str, Str, Str)   # "".join(a if c else b for c in flags[:j])
@@ -59,6 +75,10 @@ OFSTR = Function("OFSTR", Str, U)          # a str object seen as arbitrary valu
 HEXS = Function("HEXS", I, Str)            # hex(n)
 _kp, _ki, _bi = String("kp_ax"), Const("ki_ax", B), Int("bi_ax")
 from z3 import ForAll as _FA
+_jx, _ksx, _cx, _ax = Const("j_ax", J), Const("ks_ax", SeqJ), Const("c_ax", U), Const("a_ax", U)
+J_AXIOMS = [_FA([_cx, _ax], And(JCLS(NEWJ(_cx, _ax)) == _cx, JARG(NEWJ(_cx, _ax)) == _ax, Not(JHASKIDS(NEWJ(_cx, _ax))))),
+            _FA([_jx, _ksx], And(JCLS(WITHKIDS(_jx, _ksx)) == JCLS(_jx), JARG(WITHKIDS(_jx, _ksx)) == JARG(_jx),
+                                 JHASKIDS(WITHKIDS(_jx, _ksx)), JKIDS(WITHKIDS(_jx, _ksx)) == _ksx))]
 TEXT_AXIOMS = [ISNONE(NONE_U), _FA([_kp, _ki], And(KEYP(KEY(_kp, _ki)) == _kp, KEYI(KEY(_kp, _ki)) == _ki)), _FA([_bi], BOR(0, _bi) == _bi)]
 _s = String("s_ax")
 
@@ -169,9 +189,21 @@ class TextExec(SeqExec):
         if len(e.args.args) == 1 and isinstance(e.body, ast.Constant) and isinstance(e.body.value, bool):
             yield p, self.lambda_fn(V("lambda", e, dict(p.env)), p)
             return
+        if len(e.args.args) == 1 and isinstance(e.body, ast.Name) and e.body.id == e.args.args[0].arg and getattr(self.reg, "map_calls", False):
+            # identity function on attribute iterables (default attriter)
+            from z3 import ForAll
+            fn = fresh_const("identity", AFn)
+            xq = Const("xid", U)
+            p.assume(ForAll([xq], appA(fn, xq) == xq))
+            yield p, V("afn", fn)
+            return
         yield from SeqExec.e_Lambda(self, e, p)
 
     def truth(self, v, p, e=None):
+        if v.k == "optafn":
+            return v.t[0]
+        if v.k == "afn":
+            return BoolVal(True)
         if v.k == "bseq":
             return Length(v.t) > 0
         if v.k in ("optufn", "optufn2"):
@@ -265,6 +297,12 @@ class TextExec(SeqExec):
             p.assume(PAR(ROOT(obj.t)) == NONE, ROOT(obj.t) != NONE)
             yield p, vref(ROOT(obj.t))
             return
+        if obj.k == "ref" and attr == "__dict__":
+            yield p, V("nodedict", obj.t)
+            return
+        if obj.k == "nodedict" and attr == "items":
+            yield p, V("dictitems", obj.t)
+            return
         if obj.k in ("str", "pystr") and attr == "join":
             yield p, V("strmethod", (obj, "join"))
             return
@@ -298,7 +336,38 @@ class TextExec(SeqExec):
             raise Unsupported("attribute .%s of %s object" % (attr, cls))
         yield from SeqExec.attr_load(self, obj, attr, p, e)
 
+    def map_comprehension(self, e, p):
+        """[call(v, ...) for v in S] where the call has a contract with a single normal outcome: a fresh sequence R with
+        |R| = |S| and, for every index, the callee's postcondition for (S[i], R[i]); callee preconditions are obligations"""
+        from z3 import ForAll, substitute
+        g = e.generators[0]
+        for q, sv in self.ev(g.iter, p):
+            seq = self.as_iterseq(sv, q)
+            i = Int(fresh("mi"))
+            sub = q.fork(And(0 <= i, i < seq.n), "map")
+            n0 = len(sub.pc)
+            sub.env[g.target.id] = seq.at(i)
+            saved_h, self.handlers = self.handlers, [[]]
+            outs = list(self.ev(e.elt, sub))
+            raised = self.handlers.pop()
+            self.handlers = saved_h
+            if len(outs) != 1 or raised:
+                raise Unsupported("comprehension body with several outcomes: %s" % ast.unparse(e.elt))
+            q2, res = outs[0]
+            if res.k != "jdict":
+                raise Unsupported("map comprehension of %r" % (res,))
+            Rs = Const(fresh("mapped"), SeqJ)
+            ii = Int("ii")
+            q.assume(Length(Rs) == seq.n)
+            for f_ in q2.pc[n0:]:
+                q.assume(ForAll([ii], Implies(And(0 <= ii, ii < seq.n), substitute(f_, (res.t, Rs[ii]), (i, ii)))))
+            yield q, V("qseq", Rs, {"elem": "jdict"})
+
     def e_ListComp(self, e, p):
+        if len(e.generators) == 1 and not e.generators[0].ifs and isinstance(e.generators[0].target, ast.Name) \
+                and isinstance(e.elt, ast.Call) and getattr(self.reg, "map_calls", False):
+            yield from self.map_comprehension(e, p)
+            return
         # [A if c else B for c in flags]  over a tuple of booleans: kept symbolic until it is joined
         if len(e.generators) == 1 and not e.generators[0].ifs and isinstance(e.generators[0].target, ast.Name) \
                 and isinstance(e.elt, ast.IfExp) and isinstance(e.elt.test, ast.Name) and e.elt.test.id == e.generators[0].target.id:
@@ -370,6 +439,13 @@ class TextExec(SeqExec):
         yield from SeqExec.subscript_load(self, obj, key, p, e)
 
     def assign(self, tgt, v, p, aug=False):
+        # data["children"] = children   on a local dictionary built by dictcls
+        if isinstance(tgt, ast.Subscript) and isinstance(tgt.value, ast.Name) and tgt.value.id in p.env \
+                and p.env[tgt.value.id].k == "jdict" and isinstance(tgt.slice, ast.Constant) and tgt.slice.value == "children":
+            if v.k != "qseq" or (v.x or {}).get("elem") != "jdict":
+                raise Unsupported("'children' entry of %r" % (v,))
+            p.env[tgt.value.id] = V("jdict", WITHKIDS(p.env[tgt.value.id].t, v.t))
+            return [p]
         if isinstance(tgt, ast.Subscript) and isinstance(tgt.value, ast.Attribute) and tgt.value.attr == "_match_cache" \
                 and "cache" in p.extra:
             out = []
@@ -404,6 +480,9 @@ class TextExec(SeqExec):
         return SeqExec.assign(self, tgt, v, p, aug)
 
     def yield_value(self, p, v):
+        if v.k == "tuple" and len(v.t) == 2 and v.t[0].k in ("str", "pystr") and v.t[1].k == "any" and p.out.sort() == SeqKV:
+            p.out = Concat(p.out, Unit(KV.KV(tostr(v.t[0]), v.t[1].t)))
+            return
         if v.k == "row":
             p.out = Concat(p.out, Unit(v.t))
             return
@@ -425,6 +504,11 @@ class TextExec(SeqExec):
         return SeqExec.seqterm(self, v, p)
 
     def as_iterseq(self, v, p):
+        if v.k == "qseq" and (v.x or {}).get("elem") == "kv":
+            s = v.t
+            sq = IterSeq(Length(s), lambda i: V("tuple", (vstr(KV.key(s[i])), V("any", KV.val(s[i])))), desc="items")
+            sq.term, sq.elem = s, "kv"
+            return sq
         if v.k == "bseq":
             s = v.t
             sq = IterSeq(Length(s), lambda i: vbool(s[i]), desc="flags")
@@ -483,6 +567,22 @@ class TextExec(SeqExec):
                 yield p, V("qseq", sp, {"elem": "str"})
             else:
                 raise Unsupported("str.%s" % m)
+            return
+        if fv.k == "dictitems":
+            yield p, V("qseq", DKV(fv.t), {"elem": "kv"})
+            return
+        if fv.k == "dictcls":
+            if len(pos) != 1:
+                raise Unsupported("dictcls call")
+            yield p, V("jdict", NEWJ(fv.t, toany(pos[0]) if pos[0].k != "qseq" else KVSU(pos[0].t)))
+            return
+        if fv.k in ("afn", "optafn"):
+            fn = fv.t if fv.k == "afn" else fv.t[1]
+            if len(pos) != 1:
+                raise Unsupported("attriter call")
+            a0 = pos[0]
+            arg = KVSU(self.seqterm(a0, p)) if a0.k in ("qseq", "gen") else toany(a0)
+            yield p, V("any", appA(fn, arg))
             return
         if fv.k == "class" and fv.t == "Row":
             if len(pos) != 3 or pos[2].k != "ref":
@@ -581,6 +681,12 @@ class TextExec(SeqExec):
             if v.k == "qseq" and (v.x or {}).get("elem") == "str":
                 return v
             raise Unsupported("list of strings from %r" % (v,))
+        if kind in ("dictcls", "afn", "seqfn") and v.k == kind:
+            return v
+        if kind == "afn" and v.k == "optafn":
+            self.oblig(p, "SAFE", "callback-not-None", v.t[0])
+            p.assume(v.t[0])
+            return V("afn", v.t[1])
         if kind == "bseq":
             if v.k == "bseq":
                 return v
@@ -680,7 +786,8 @@ class TextExec(SeqExec):
         return SeqExec.fresh_of_kind(self, kind, name)
 
     def fresh_like(self, v, name):
-        if v.k in ("ufn", "ufn2", "optufn", "optufn2", "optseq", "useq", "iddict", "counter", "id", "cmpfn", "module", "refn", "seqfn"):
+        if v.k in ("ufn", "ufn2", "optufn", "optufn2", "optseq", "useq", "iddict", "counter", "id", "cmpfn", "module", "refn", "seqfn",
+                   "dictcls", "afn", "optafn"):
             return v
         if v.k == "bseq":
             return V("bseq", Const(fresh(name), SeqBool))
@@ -693,6 +800,8 @@ class TextExec(SeqExec):
         return SeqExec.fresh_like(self, v, name)
 
     def fresh_result(self, kind):
+        if kind == "jdict":
+            return V("jdict", fresh_const("res", J))
         if kind in ("str", "any", "lines"):
             return self.fresh_of_kind(kind, "res")
         return SeqExec.fresh_result(self, kind)
@@ -721,6 +830,12 @@ class TextWorld(SeqWorld):
             return V("qseq", Const("arg_" + n, SeqStr), {"elem": "str"})
         if k == "bseq":
             return V("bseq", Const("arg_" + n, SeqBool))
+        if k == "dictcls":
+            return V("dictcls", Const("arg_" + n, U))
+        if k == "afn":
+            return V("afn", Const("arg_" + n, AFn))
+        if k == "seqfn":
+            return V("seqfn", Const("arg_" + n, SeqFn))
         if k.startswith("obj:") and n != "self":
             return V("obj", n, k[4:])
         if k == "cmpfn":
@@ -728,9 +843,11 @@ class TextWorld(SeqWorld):
         return SeqWorld.make_arg(self, n, k)
 
     def arg_facts(self, args, spec):
-        return SeqWorld.arg_facts(self, args, spec) + list(TEXT_AXIOMS)
+        return SeqWorld.arg_facts(self, args, spec) + list(TEXT_AXIOMS) + (list(J_AXIOMS) if getattr(spec.registry, "map_calls", False) else [])
 
     def empty_out(self, spec):
+        if spec.yields == "kv":
+            return Empty(SeqKV)
         if spec.yields == "rows":
             return Empty(SeqRow)
         if spec.yields == "lastpairs":
@@ -742,6 +859,8 @@ class TextWorld(SeqWorld):
         return SeqWorld.empty_out(self, spec)
 
     def gen_value(self, p):
+        if p.out.sort() == SeqKV:
+            return V("qseq", p.out, {"elem": "kv"})
         if p.out.sort() == SeqRow:
             return V("qseq", p.out, {"elem": "row"})
         if p.out.sort() == SeqLP:
@@ -762,6 +881,8 @@ class TextWorld(SeqWorld):
             return value.k in ("str", "pystr")
         if want == "row":
             return value.k == "row"
+        if want == "jdict":
+            return value.k == "jdict"
         if want == "tuple":
             return value.k == "tuple"
         if want == "ref":
